@@ -1,5 +1,5 @@
 from ._muxprops import make, COMMON_RULE
 
-SPEC = make("C08", "Properties.C08", ['C08_finish_task_spec', 'C08_close_local_stream', 'C08_wind_down_nowait', 'C08_invalid_message_ends', 'C08_settle_conserves', 'C08_settle_drain', 'C08_burst_is_sequential'],
+SPEC = make("C08", "Properties.C08", ['C08_finish_task_spec', 'C08_close_local_stream', 'C08_wind_down_nowait', 'C08_invalid_message_ends', 'C08_settle_conserves', 'C08_settle_drain', 'C08_burst_is_sequential', 'C08_drop_flush_refuted_witness'],
             [("pair", "end-drop", 0.35), ("pair", "permits-drop-end", 0.35), ("pair", "collide-drop-end-inject-permits", 0.3)],
-            COMMON_RULE + "Emphasis for this property: generator mode(s) end.", "DESIGN.md §5 C08")
+            COMMON_RULE + "Emphasis for this property: generator mode(s) end. A black-box predicate of the last clause runs on every trace: the application dropped the Multiplexor while everything was healthy (no transport failure, no injected message, first drop) and the task has ended: every write it had accepted must have reached the wire.", "DESIGN.md §5 C08")
